@@ -451,15 +451,22 @@ the sink APIs whose call sites are listed in `sinkSites`.  A call of any other f
 theorem boundary_closed :
     boundary.all (fun c => harmlessExt c || sinkApis.contains c) = true := by decide
 
+/-- the categories of the loud sink sites, without repetition -/
+def loudCategories (sites : List SinkSite) : List String :=
+  (sites.filter (fun s => !s.quiet)).foldl (fun acc s => if acc.contains s.cat then acc else acc ++ [s.cat]) []
+
 open NA.Gen.LockSkel in
-/-- **Every write site is known.** The module functions that contain a loud sink site (one that is
-not a print to stderr/stdout or into a local buffer) are exactly the 24 functions of the table
-`writerCategory`: lock file, history, status, run log and its creation and rotation, the session
-logs `.login` `.config` `.change` `.cmp`, the ssh / https / scp dialogue with the device and the
-temporary files for scp.  `writerFns` is re-derived here from `sinkSites`. -/
+/-- **Every write site is known.** Every loud sink site (one that is not a print to stderr/stdout or
+into a local buffer) in module code reachable from `main` falls into one of the 21 categories of the
+table `writeCategories` — lock directory/file/flock, history, status, run log and its creation and
+rotation, the session logs, the ssh / https / scp dialogue with the device and the temporary files for
+scp — and every category of the table occurs.  The category of a site is what its API does plus where
+its target comes from (`mkdir:basedir/status`, `write:param`, …); no function name enters, so renaming,
+in-lining or extracting a helper changes nothing, while a new KIND of write is a new category.
+`writerFns` (used for `Site.writers`) is re-derived from `sinkSites`. -/
 theorem write_sites_classified :
-    writerFns.all (fun f => (writerCategory.map (·.1)).contains f) = true ∧
-    (writerCategory.map (·.1)).all (fun f => writerFns.contains f) = true ∧
+    (loudCategories sinkSites).all (fun c => (writeCategories.map (·.1)).contains c) = true ∧
+    (writeCategories.map (·.1)).all (fun c => (loudCategories sinkSites).contains c) = true ∧
     writerFns.all (fun f => sinkSites.any (fun s => !s.quiet && s.fn == f)) = true ∧
     sinkSites.all (fun s => s.quiet || writerFns.contains s.fn) = true := by
   decide
